@@ -195,6 +195,12 @@ def rule_bytes(ctx):
     probs.append("bytes.fromhex is applied to %s on a path where the length of the argument is %s" % (repr(arg)[:90], "odd" if odd else "even" if even else "not known to be even or odd"))
   if not rets:
     probs.append("no return")
+  # the walker's sum does not keep the order of a string concatenation: the padding digit must be the *left* operand wherever a string literal is concatenated
+  for x in ast.walk(f.node):
+    if isinstance(x, ast.BinOp) and isinstance(x.op, ast.Add) and isinstance(x.right, ast.Constant) and isinstance(x.right.value, str):
+      probs.append("a digit is appended on the right (`%s`): an odd-length hex string must be padded on the left" % norm(x))
+    if isinstance(x, ast.AugAssign) and isinstance(x.op, ast.Add) and isinstance(x.value, ast.Constant) and isinstance(x.value.value, str):
+      probs.append("a digit is appended on the right (`%s`)" % norm(x))
   ctx.record(R, f.where, "odd-length hex left-padded", not probs, "; ".join(probs[:2]) or "'0' + hex for odd lengths, the text itself for even lengths")
   f = repo.func("ec_util", "PublicPoint")
   w = sym.Walker(repo, f)
